@@ -288,6 +288,13 @@ static void trial_func(void *vp)
             entry_obs = vx_mix(entry_obs, vx_hash_bytes(42, &a, 8));
             entry_obs = vx_mix(entry_obs, vx_hash_bytes(43, &b, 8));
         }
+        /* common random numbers: every trial first draws from one and the same seed, whatever seed the trial that ran
+         * before it on this thread used last (see the end of the trial: it was this very one) */
+        cmb_random_initialize(0xC0FFEEull);
+        {
+            const uint64_t crn = cmb_random_sfc64();
+            entry_obs = vx_mix(entry_obs, crn);
+        }
         uint64_t result;
         switch (idx % 4) {
         case 0:
@@ -327,6 +334,11 @@ static void trial_func(void *vp)
             break;
         }
         result = vx_mix(result, entry_obs);
+        if (idx % 4 != 3) {
+            /* ... and (except for the trials that leave the generator as their work left it) ends by drawing from it again */
+            cmb_random_initialize(0xC0FFEEull);
+            result = vx_mix(result, cmb_random_sfc64());
+        }
         result |= 1ull << 63;
         if (SZ >= 16) {
             memcpy(ep + 8, &result, 8);
